@@ -364,3 +364,245 @@ def rule_cutvar(ctx):
         res.inst("unknown-cut", f["sp"]["file"], f["sp"]["line"], "ok", "data and codata instance")
     res.require_floor(1)
     return res
+
+
+def rule_cutkind(ctx):
+    """R-CUTKIND: right-hand sides of the cut shapes"""
+    from .. import interp as _interp
+    from ..interp import Adt as _Adt, Sym as _Sym, Vec as _Vec, SetVal as _SetVal
+    from ..backend import fold_verdict
+    from .linear import _MutInt
+    fx = ctx.fx
+    res = RuleResult("R-CUTKIND", "right-hand sides of the Core->AxCut translation of cuts, decided by folding `Cut::shrink` on one symbolic instance of "
+                     "every shape that is translated by construction (the recursive shrink of sub-statements is cut and recorded): "
+                     "<K(as) | mu~x.s> and <mu a.s | D(as)> become `let`, <K(as) | a> and <x | D(as)> `invoke`, <x | case> and <cocase | a> "
+                     "`switch`, <cocase | mu~x.s> and <mu a.s | case> `create`, <n | mu~x.s> / <n | a> `lit` (+ invoke Ret), <p op q | ..> "
+                     "`op` (+ invoke Ret), <x | mu~v.s> and <mu a.s | c> a renaming of s, known cuts the matching clause body with its "
+                     "binders renamed to the arguments; each with the bound/scrutinised/invoked variable, the tag, the arguments in "
+                     "order and the sub-statements in the places the calculus prescribes")
+    key = "<scc_core_lang::syntax::statements::cut::Cut<FsTerm,FsTerm> as core2axcut::shrinking::Shrinking>::shrink"
+    f = fx.fn(key)
+    CL = "scc_core_lang::syntax::"
+    PRD, CNS = _Adt(CL + "terms::Prd", "Prd", {}), _Adt(CL + "terms::Cns", "Cns", {})
+
+    def ident(nm, i):
+        return _Adt(CL + "names::Identifier", "Identifier", {"name": nm, "id": i})
+    I64 = _Adt(CL + "types::Ty", "I64", {})
+    TD = _Adt(CL + "types::Ty", "Decl", {"0": ident("D", 0)})
+    TC = _Adt(CL + "types::Ty", "Decl", {"0": ident("C", 0)})
+
+    def cb(nm, i, chi="Prd", ty=None):
+        return _Adt(CL + "context::ContextBinding", "ContextBinding", {"var": ident(nm, i), "chi": _Adt(CL + "context::Chirality", chi, {}), "ty": ty or I64})
+
+    def tctx(bs):
+        return _Adt(CL + "context::TypingContext", "TypingContext", {"bindings": _Vec(list(bs))})
+
+    def T(variant, inner):
+        return _Adt(CL + "terms::FsTerm", variant, {"0": inner})
+
+    def xvar(pc, nm, i, ty):
+        return T("XVar", _Adt(CL + "terms::xvar::XVar", "XVar", {"prdcns": pc, "var": ident(nm, i), "ty": ty}))
+
+    def mu(pc, nm, i, body, ty):
+        return T("Mu", _Adt(CL + "terms::mu::Mu", "Mu", {"prdcns": pc, "variable": ident(nm, i), "statement": _Sym(body), "ty": ty}))
+
+    def xtor(pc, name, args, ty):
+        return T("Xtor", _Adt(CL + "terms::xtor::Xtor", "Xtor", {"prdcns": pc, "name": ident(name, 0), "args": tctx(args), "ty": ty}))
+
+    def xcase(pc, clauses, ty):
+        return T("XCase", _Adt(CL + "terms::xcase::XCase", "XCase", {"prdcns": pc, "ty": ty, "clauses": _Vec([
+            _Adt(CL + "terms::clause::Clause", "Clause", {"prdcns": pc, "xtor": ident(x, 0), "context": tctx(c), "body": _Sym(b)}) for x, c, b in clauses])}))
+
+    def decl(marker, name, xtors):
+        return _Adt(CL + "declaration::TypeDeclaration", "TypeDeclaration", {"dat": _Adt(CL + "declaration::" + marker, marker, {}), "name": ident(name, 0), "xtors": _Vec([
+            _Adt(CL + "declaration::XtorSig", "XtorSig", {"xtor": _Adt(CL + "declaration::" + marker, marker, {}), "name": ident(x, 0), "args": tctx(a)}) for x, a in xtors])})
+    data = _Vec([decl("Data", "D", [("K0", []), ("K1", [cb("p", 0), cb("q", 0)])])])
+    codata = _Vec([decl("Codata", "C", [("d0", [cb("p", 0)]), ("d1", [cb("p", 0), cb("q", 0)])])])
+    ARGS = [cb("u", 11), cb("w", 12)]
+    CLS = [("K0", [], "b0"), ("K1", [cb("y", 21), cb("z", 22)], "b1")]
+    CLC = [("d0", [cb("y", 21)], "b0"), ("d1", [cb("y", 21), cb("z", 22)], "b1")]
+
+    def run(prod, cons, ty):
+        events = []
+
+        def hook(I, p, fr, t, args):
+            n = t.get("callee_name")
+            a0 = I.deref(args[0]) if args else None
+            if n == "shrink" and (t.get("callee_trait") or "").endswith("shrinking::Shrinking") and isinstance(a0, _Sym):
+                events.append(("shrink", a0.name))
+                return _Sym("sh(%s)" % a0.name)
+            if n == "subst_sim" and isinstance(a0, _Sym):
+                sub = I.deref(args[1]) if len(args) > 1 else None
+                pairs = []
+                if isinstance(sub, _Vec):
+                    for e in sub.items:
+                        if isinstance(e, _Adt) and set(e.fields) >= {"0", "1"}:
+                            k0, v0 = I.deref(e.fields["0"]), I.deref(e.fields["1"])
+                            pairs.append((k0, v0.fields.get("id") if isinstance(v0, _Adt) else v0))
+                events.append(("subst", a0.name, pairs))
+                return _Sym("%s%s" % (a0.name, pairs))
+            return NotImplemented
+        I = _interp.Interp(fx, hooks=[hook], max_depth=12, max_paths=64, max_steps=300000)
+        holder = _Adt(None, None, {"0": 100})
+        state = _Adt("core2axcut::shrinking::ShrinkingState", "ShrinkingState", {
+            "max_id": _MutInt(I, holder), "data": data, "codata": codata, "used_labels": _SetVal(), "current_label": "f", "lifted_statements": _Vec([])})
+        sfr = _interp.Frame({"locals": [{"ty": "ShrinkingState"}], "blocks": [], "key": "<state>"}, [])
+        sfr.locals = [state]
+        cut = _Adt(CL + "statements::cut::Cut", "Cut", {"producer": prod, "ty": ty, "consumer": cons})
+        outs = I.run(f, [cut, _interp.Ref(sfr, 0, [])])
+        msg = fold_verdict(outs, "R-CUTKIND: Cut::shrink")
+        if msg:
+            return None, msg, events
+        return [o for o in outs if not getattr(o, "diverged", None)][0].result, None, events
+
+    def unwrap(r):
+        if isinstance(r, _Adt) and r.path and r.path.endswith("statements::Statement") and isinstance(r.fields.get("0"), _Adt):
+            return r.variant, r.fields["0"]
+        if isinstance(r, _Adt):
+            return r.variant, r
+        return None, r
+
+    def vid(x):
+        return x.fields.get("id") if isinstance(x, _Adt) else None
+
+    def arg_ids(c):
+        return [b_.fields["var"].fields["id"] for b_ in c.fields["bindings"].items] if isinstance(c, _Adt) and "bindings" in c.fields else None
+
+    def clauses_ok(cl, spec):
+        """clauses keep xtor, binders and order; bodies are the shrunk bodies"""
+        if not isinstance(cl, _Vec) or len(cl.items) != len(spec):
+            return "the clause list has %s entries, expected %d" % (len(cl.items) if isinstance(cl, _Vec) else "?", len(spec))
+        for c, (x, bs, b) in zip(cl.items, spec):
+            if c.fields["xtor"].fields.get("name") != x or arg_ids(c.fields["context"]) != [b_.fields["var"].fields["id"] for b_ in bs]:
+                return "clause %s is translated to %s(%s)" % (x, c.fields["xtor"].fields.get("name"), arg_ids(c.fields["context"]))
+            body = c.fields.get("body")
+            if not (isinstance(body, _Sym) and body.name == "sh(%s)" % b):
+                return "the body of clause %s is %r, expected the translation of its own body" % (x, body)
+        return None
+
+    X, A_, V = 1, 2, 3
+    cases = []
+    # (label, producer, consumer, type, checker)
+    def chk_let(var, tag, body):
+        def c(kind, st, ev):
+            if kind != "Let":
+                return "is translated to `%s`, expected `let`" % kind
+            if vid(st.fields["var"]) != var or st.fields["tag"].fields.get("name") != tag or arg_ids(st.fields["args"]) != [11, 12]:
+                return "let binds %s = %s(%s), expected %s = %s(11, 12)" % (vid(st.fields["var"]), st.fields["tag"].fields.get("name"), arg_ids(st.fields["args"]), var, tag)
+            if not (isinstance(st.fields["next"], _Sym) and st.fields["next"].name == "sh(%s)" % body):
+                return "let continues with %r, expected the translation of the abstraction's body" % (st.fields["next"],)
+        return c
+
+    def chk_invoke(var, tag):
+        def c(kind, st, ev):
+            if kind != "Invoke":
+                return "is translated to `%s`, expected `invoke`" % kind
+            if vid(st.fields["var"]) != var or st.fields["tag"].fields.get("name") != tag or arg_ids(st.fields["args"]) != [11, 12]:
+                return "invokes %s.%s(%s), expected %s.%s(11, 12)" % (vid(st.fields["var"]), st.fields["tag"].fields.get("name"), arg_ids(st.fields["args"]), var, tag)
+        return c
+
+    def chk_switch(var, spec):
+        def c(kind, st, ev):
+            if kind != "Switch":
+                return "is translated to `%s`, expected `switch`" % kind
+            if vid(st.fields["var"]) != var:
+                return "switches on %s, expected %s" % (vid(st.fields["var"]), var)
+            return clauses_ok(st.fields["clauses"], spec)
+        return c
+
+    def chk_create(var, spec, body):
+        def c(kind, st, ev):
+            if kind != "Create":
+                return "is translated to `%s`, expected `create`" % kind
+            if vid(st.fields["var"]) != var:
+                return "creates %s, expected %s" % (vid(st.fields["var"]), var)
+            if not (isinstance(st.fields["next"], _Sym) and st.fields["next"].name == "sh(%s)" % body):
+                return "continues with %r, expected the translation of the abstraction's body" % (st.fields["next"],)
+            return clauses_ok(st.fields["clauses"], spec)
+        return c
+
+    def chk_renaming(body, frm, to):
+        def c(kind, st, ev):
+            subs = [e for e in ev if e[0] == "subst"]
+            if len(subs) != 1 or subs[0][1] != body or subs[0][2] != [(frm, to)]:
+                return "substitutes %s, expected [%d := %d] in the abstraction's body" % ([(e[1], e[2]) for e in subs], frm, to)
+            if not (isinstance(st, _Sym) and st.name.startswith("sh(%s" % body)):
+                return "the result is %r, expected the translation of the renamed body" % (st,)
+        return c
+
+    def chk_known(body, binders):
+        def c(kind, st, ev):
+            subs = [e for e in ev if e[0] == "subst"]
+            want = list(zip(binders, [11, 12]))
+            if len(subs) != 1 or subs[0][1] != body or subs[0][2] != want:
+                return "substitutes %s, expected %s in the body of the matching clause" % ([(e[1], e[2]) for e in subs], want)
+            if not (isinstance(st, _Sym) and st.name.startswith("sh(%s" % body)):
+                return "the result is %r, expected the translation of the matching clause's body" % (st,)
+        return c
+
+    def chk_lit(var, body):
+        def c(kind, st, ev):
+            if kind != "Literal" or st.fields.get("lit") != 42:
+                return "is translated to `%s`, expected `lit 42`" % kind
+            if var is not None:
+                if vid(st.fields["var"]) != var or not (isinstance(st.fields["next"], _Sym) and st.fields["next"].name == "sh(%s)" % body):
+                    return "binds %s and continues with %r" % (vid(st.fields["var"]), st.fields["next"])
+            else:
+                k2, inv = unwrap(st.fields["next"])
+                fresh = vid(st.fields["var"])
+                if k2 != "Invoke" or vid(inv.fields["var"]) != A_ or arg_ids(inv.fields["args"]) != [fresh] or fresh is None or fresh <= 100:
+                    return "a literal returned to a covariable must be bound to a fresh variable and passed to it (got %s %r)" % (k2, inv)
+        return c
+
+    def chk_op(var, body):
+        def c(kind, st, ev):
+            if kind != "Op" or vid(st.fields["fst"]) != 11 or vid(st.fields["snd"]) != 12 or st.fields["op"].variant != "Sub":
+                return "is translated to `%s` %s %s %s, expected 11 - 12" % (kind, vid(st.fields.get("fst")), getattr(st.fields.get("op"), "variant", "?"), vid(st.fields.get("snd")))
+            if var is not None:
+                if vid(st.fields["var"]) != var or not (isinstance(st.fields["next"], _Sym) and st.fields["next"].name == "sh(%s)" % body):
+                    return "binds %s and continues with %r" % (vid(st.fields["var"]), st.fields["next"])
+            else:
+                k2, inv = unwrap(st.fields["next"])
+                fresh = vid(st.fields["var"])
+                if k2 != "Invoke" or vid(inv.fields["var"]) != A_ or arg_ids(inv.fields["args"]) != [fresh] or fresh is None or fresh <= 100:
+                    return "the result of an operation returned to a covariable must be bound to a fresh variable and passed to it"
+        return c
+    OP = T("Op", _Adt(CL + "terms::op::Op", "Op", {"fst": ident("u", 11), "op": _Adt(CL + "terms::op::BinOp", "Sub", {}), "snd": ident("w", 12)}))
+    LIT = T("Literal", _Adt(CL + "terms::literal::Literal", "Literal", {"lit": 42}))
+    cases = [
+        ("<x | mu~v.s>", xvar(PRD, "x", X, TD), mu(CNS, "v", V, "s", TD), TD, chk_renaming("s", V, X)),
+        ("<mu a.s | c>", mu(PRD, "a", V, "s", TD), xvar(CNS, "c", A_, TD), TD, chk_renaming("s", V, A_)),
+        ("<K1(u, w) | case {K0 => b0, K1(y, z) => b1}>", xtor(PRD, "K1", ARGS, TD), xcase(CNS, CLS, TD), TD, chk_known("b1", [21, 22])),
+        ("<cocase {d0(y) => b0, d1(y, z) => b1} | d1(u, w)>", xcase(PRD, CLC, TC), xtor(CNS, "d1", ARGS, TC), TC, chk_known("b1", [21, 22])),
+        ("<K1(u, w) | mu~v.s>", xtor(PRD, "K1", ARGS, TD), mu(CNS, "v", V, "s", TD), TD, chk_let(V, "K1", "s")),
+        ("<mu a.s | d1(u, w)>", mu(PRD, "a", V, "s", TC), xtor(CNS, "d1", ARGS, TC), TC, chk_let(V, "d1", "s")),
+        ("<K1(u, w) | a>", xtor(PRD, "K1", ARGS, TD), xvar(CNS, "a", A_, TD), TD, chk_invoke(A_, "K1")),
+        ("<x | d1(u, w)>", xvar(PRD, "x", X, TC), xtor(CNS, "d1", ARGS, TC), TC, chk_invoke(X, "d1")),
+        ("<x | case {..}>", xvar(PRD, "x", X, TD), xcase(CNS, CLS, TD), TD, chk_switch(X, CLS)),
+        ("<cocase {..} | a>", xcase(PRD, CLC, TC), xvar(CNS, "a", A_, TC), TC, chk_switch(A_, CLC)),
+        ("<cocase {..} | mu~v.s>", xcase(PRD, CLC, TC), mu(CNS, "v", V, "s", TC), TC, chk_create(V, CLC, "s")),
+        ("<mu a.s | case {..}>", mu(PRD, "a", V, "s", TD), xcase(CNS, CLS, TD), TD, chk_create(V, CLS, "s")),
+        ("<42 | mu~v.s>", LIT, mu(CNS, "v", V, "s", I64), I64, chk_lit(V, "s")),
+        ("<42 | a>", LIT, xvar(CNS, "a", A_, I64), I64, chk_lit(None, None)),
+        ("<u - w | mu~v.s>", OP, mu(CNS, "v", V, "s", I64), I64, chk_op(V, "s")),
+        ("<u - w | a>", OP, xvar(CNS, "a", A_, I64), I64, chk_op(None, None)),
+    ]
+    for label, prod, cons, ty, chk in cases:
+        r, msg, ev = run(prod, cons, ty)
+        ikey = label
+        if msg:
+            res.inst(ikey, f["sp"]["file"], f["sp"]["line"], "violation")
+            res.violate(ikey, "%s: %s" % (label, msg), f["sp"]["file"], f["sp"]["line"])
+            continue
+        kind, st = unwrap(r)
+        try:
+            problem = chk(kind, st, ev)
+        except (KeyError, AttributeError) as e:
+            raise AnalysisError("R-CUTKIND: the translation of %s is not a concrete statement (%r)" % (label, e))
+        if problem:
+            res.inst(ikey, f["sp"]["file"], f["sp"]["line"], "violation")
+            res.violate(ikey, "%s %s" % (label, problem), f["sp"]["file"], f["sp"]["line"])
+        else:
+            res.inst(ikey, f["sp"]["file"], f["sp"]["line"], "ok")
+    res.require_floor(16)
+    return res
